@@ -50,6 +50,11 @@ INFO = {
  "C16-c": ("narrowing cast<float>() composes with Identity to re-normalise", "double -> float cast of a group with a rotation part holding non-canonical coefficient contents"),
  "C17-c": ("Galilei log fast path for tau == 0 uses the right instead of the left inverse Jacobian", "Galilei element with time component exactly 0 and a finite rotation"),
  "C20-c": ("binary_interval_search converts the query to the range's value type before comparing", "query type different from the range's value type and a conversion that changes the value (int range, negative half-integer query); some inputs do not terminate"),
+ "C09-c": ("CeresStrategy accept/reject rewritten as an early return: a NaN gain ratio is accepted", "Ceres strategy, residual defined only on part of the parameter space (log fit), start whose first step leaves the domain"),
+ "C10-c": ("solve_linear_ldlt: dense J with <= 4 static columns solved by the closed-form inverse", "statically sized dense J with <= 4 columns, rank-deficient or wide with small lambda d^2 (cond(H) > 1e5)"),
+ "C13-c": ("BSpline::operator(): knot index as int instead of int64_t", "evaluation time with (t - t0)/dt >= 2^31 (far above t_max)"),
+ "C14-c": ("fit_spline_1d: right-end boundary constraints use the left end's derivative orders", "specification whose left and right boundary orders differ (FixedDerCubic<1,2> / <2,1>)"),
+ "C15-c": ("SO2::lift_so3 via half-angle identities on the stored (sin, cos)", "SO2 / SE2 element within 1e-5 rad of 0 or pi (not exactly), then lift_so3 / lift_se3"),
  "C16-b": ("SE_K_3::r3(int k) mutable accessor starts at K*k instead of 3*k", "SE_K_3 with K not in {1,3}, mutable value or Map, run-time index k >= 1"),
 }
 rows = []
